@@ -4,6 +4,7 @@ import os
 import shutil
 
 import vlib
+from checks import x03
 
 LEVEL = "model_checking"
 TITLE = "A wake-up from any thread is never lost"
@@ -13,12 +14,21 @@ TEXT = ("Wakeup.tla models the cross-thread wake path one action per segment bet
         "that the runtime is never parked while a wake is outstanding and, under fairness, that every wake is followed by a "
         "poll of its target. TLC-generated interleavings are then replayed on a real Runtime with real waking threads by a "
         "schedule controller that parks each thread at the hook sites; every turn must arrive at the site the model predicts, "
-        "and after each schedule every condition set before a wake() must be observed by a poll of its target.")
+        "and after each schedule every condition set before a wake() must be observed by a poll of its target. The clause "
+        "'driven by an external event loop that waits on the driver's descriptor' is decided on compio-compat itself: "
+        "CompatLoop.tla (EXTENDS Wakeup: the steps of RuntimeCompat::drive over the tokio and async-io adapters, I/O "
+        "completions, timers and thread-pool completions as further wake sources) is checked the same way, its schedules "
+        "are steered through the real RuntimeCompat on real tokio / async-io hosts, and a free-running leg samples the rest; "
+        "a host left asleep with a woken target or a ready completion is the violation.")
 NOTE = ("Bounds: 2 waking threads, targets main future and <= 2 spawned tasks, cross-thread queue capacity 1 (full-queue path "
         "exercised), both drivers, block_on and external-loop mode, task polls that overflow a 2-entry submission queue (push_raw draining the CQ inside a poll). Sequentially consistent model: reorderings allowed by the "
         "chosen atomics orderings are NOT explored (needs a memory-model checker). Races inside a single hook-free segment are "
-        "not steered. Lost wake-up on real code = targets not polled within 4 s after all wakers returned.")
-TECHNIQUE = "TLA+ model (TLC safety + liveness), schedule-controller replay of TLC interleavings on real threads"
+        "not steered. Lost wake-up on real code = targets not polled within 4 s after all wakers returned. compio-compat "
+        "leg: <= 2 waking threads, 1 task, <= 2 reads, 2 timers, 3 thread-pool jobs per program, tokio (current-thread, "
+        "multi-thread in the free-running leg) and async-io hosts, both drivers; tokio's and async-io's reactors are "
+        "environment (edge-triggered readiness cache / level-triggered wait, confirmed by zero drift); lost wake-up = "
+        "execute() does not return within 20 s after everything the program waits for has happened.")
+TECHNIQUE = "TLA+ models (TLC safety + liveness + controls), schedule-controller replay of TLC interleavings on real threads, seeded stress"
 DESIGN_REF = "3/C03"
 
 MC_QUICK = ["mt", "tt", "mm", "mt_poll", "ext_mt", "ext_mt_poll", "mt_ov"]
@@ -29,6 +39,17 @@ GEN_QUICK = [("mt", 40), ("tt", 30), ("mm", 30), ("t12", 60), ("mt_late", 40), (
 
 
 def run(run, tier, replay):
+    if replay and x03.is_compat_replay(replay):
+        x03.compat_leg(run, tier, replay, prefix="compat_")
+        return
+    _wake_leg(run, tier, replay)
+    if not replay:
+        # the external-event-loop clause on compio-compat itself (model configurations of CompatLoop, steered replay
+        # on the real RuntimeCompat, free-running leg); shared with ./check X03
+        x03.compat_leg(run, tier, None, prefix="compat_")
+
+
+def _wake_leg(run, tier, replay):
     for m in ("Wakeup", "MC_Wakeup", "Gen_Wakeup"):
         vlib.sany(m)
     tmp = vlib.scratch()
